@@ -312,7 +312,7 @@ Proof.
   destruct (lookup_node s h) as [[d da]|]; [|apply HN_refl].
   destruct (negb (kind_eqb (na_kind da) KDir)); [apply HN_refl|].
   destruct (getattr_h s h d) as [s1 [dpre|e]] eqn:E1; [|hn].
-  unfold do_stat. cbn [fst snd]. destruct (be_stat (fs (logc s1 (bc BStat (d ++ [n])))) (d ++ [n]) true) as [fi|e]; [|hn].
+  unfold do_stat. cbn [fst snd fs logc]. destruct (be_stat (fs s1) (d ++ [n]) true) as [fi|e]; [|hn].
   destruct (negb (kind_eqb (fi_kind fi) KDir)); [hn|].
   cbn [fst snd fs logc now]. destruct (snd (be_remove (fs s1) (d ++ [n]) (now s1))) as [u|e].
   - match goal with |- context [getattr_h ?b h d] => destruct (getattr_h b h d) as [s3 [dp|e]] eqn:E3 end; hn.
@@ -366,4 +366,203 @@ Proof.
   apply (commute_attr_reader s c1 r1 c2 r2 h p a a G AR OK L).
   - rewrite (rm_keeps_handles s c2 r2 (hd, n) R h). exact L.
   - eapply rm_same_above; eassumption.
+Qed.
+
+(* ====================================================================================================== *)
+(* 5. the backend: creating / removing different names commutes up to the parents' mtime                  *)
+(* ====================================================================================================== *)
+(* the two point updates of the namespace: put object x at p (Some) or delete p (None); the parent is touched *)
+Definition pt (f : fsmap) (p : path) (x : option obj) (t : N) : fsmap :=
+  match x with Some o => fs_add f p o t | None => fs_rm f p t end.
+Lemma fs_get_pt f p x t q : p <> [] ->
+  fs_get (pt f p x t) q =
+  if path_eqb q p then x else if path_eqb q (parent p) then option_map (touch_o t) (fs_get f q) else fs_get f q.
+Proof. intros NE. destruct x; cbn [pt]; [apply fs_get_add|apply fs_get_del']; exact NE. Qed.
+
+(* p1 and p2 are different names and neither is the directory the other lives in *)
+Definition indep (p1 p2 : path) : Prop := p1 <> [] /\ p2 <> [] /\ p1 <> p2 /\ parent p1 <> p2 /\ parent p2 <> p1.
+Lemma indep_sym p1 p2 : indep p1 p2 -> indep p2 p1.
+Proof. intros (A & B & C & D & E). repeat split; auto. Qed.
+
+Lemma touch_touch t1 t2 o : touch_o t1 (touch_o t2 o) = touch_o t1 o.
+Proof. reflexivity. Qed.
+Lemma touch0_touch t o : touch_o 0 (touch_o t o) = touch_o 0 o.
+Proof. reflexivity. Qed.
+
+(* exact equality everywhere except (when the two names share their directory and the instants differ) at that
+   directory, where only the mtime can differ *)
+Theorem pt_commute f p1 x1 t1 p2 x2 t2 q : indep p1 p2 ->
+  let f12 := pt (pt f p1 x1 t1) p2 x2 t2 in let f21 := pt (pt f p2 x2 t2) p1 x1 t1 in
+  option_map (touch_o 0) (fs_get f12 q) = option_map (touch_o 0) (fs_get f21 q) /\
+  (parent p1 <> parent p2 \/ q <> parent p1 \/ t1 = t2 -> fs_get f12 q = fs_get f21 q).
+Proof.
+  intros (N1 & N2 & D & A & B). cbv zeta. rewrite !fs_get_pt by assumption.
+  peq q p2; [subst q|].
+  - (* q = p2 *)
+    peq p2 p1; [congruence|]. peq p2 (parent p1); [congruence|]. rewrite ?peqb_refl. split; [reflexivity|intros _; reflexivity].
+  - peq q p1; [subst q|].
+    + peq p1 (parent p2); [congruence|]. rewrite ?peqb_refl. split; [reflexivity|intros _; reflexivity].
+    + peq q (parent p2); peq q (parent p1).
+      * (* the common parent *)
+        destruct (fs_get f q) as [o|]; cbn [option_map]; [|split; [reflexivity|intros _; reflexivity]].
+        split; [reflexivity|]. intros [H|[H|H]]; [congruence|congruence|subst t2; reflexivity].
+      * split; [reflexivity|intros _; reflexivity].
+      * split; [reflexivity|intros _; reflexivity].
+      * split; [reflexivity|intros _; reflexivity].
+Qed.
+
+(* whether a name can be created / removed does not depend on an independent point update *)
+Lemma kd_pt f p x t q : p <> [] -> q <> p -> kd (pt f p x t) q = kd f q.
+Proof.
+  intros NE Q. apply pk_kd. destruct x; cbn [pt]; [apply pk_add|apply pk_del]; assumption.
+Qed.
+Lemma get_none_pt f p x t q : p <> [] -> q <> p -> (fs_get (pt f p x t) q = None <-> fs_get f q = None).
+Proof.
+  intros NE Q. rewrite fs_get_pt by exact NE. apply peqb_neq in Q. rewrite Q.
+  destruct (path_eqb q (parent p)); [|tauto]. destruct (fs_get f q); cbn; split; congruence.
+Qed.
+Lemma creatable_pt f p1 x t p2 : indep p1 p2 -> creatable (pt f p1 x t) p2 = creatable f p2.
+Proof.
+  intros (N1 & N2 & D & A & B). unfold creatable.
+  pose proof (get_none_pt f p1 x t p2 N1 (not_eq_sym D)) as H.
+  rewrite (kd_pt f p1 x t (parent p2) N1 B).
+  destruct (fs_get (pt f p1 x t) p2), (fs_get f p2); try reflexivity.
+  - destruct H as [_ H]. specialize (H eq_refl). discriminate.
+  - destruct H as [H _]. specialize (H eq_refl). discriminate.
+Qed.
+Lemma has_children_pt f p1 x t p2 : indep p1 p2 -> has_children (pt f p1 x t) p2 = has_children f p2.
+Proof.
+  intros (N1 & N2 & D & A & B).
+  destruct (has_children f p2) eqn:H.
+  - apply has_children_true in H. destruct H as [n [o H]]. apply has_children_true.
+    assert (Q : p2 ++ [n] <> p1) by (intros F; apply A; rewrite <- F; apply parent_snoc).
+    destruct (fs_get (pt f p1 x t) (p2 ++ [n])) as [o'|] eqn:G; [exists n, o'; exact G|].
+    apply (get_none_pt f p1 x t _ N1 Q) in G. congruence.
+  - apply has_children_false. intros n. rewrite has_children_false in H.
+    assert (Q : p2 ++ [n] <> p1) by (intros F; apply A; rewrite <- F; apply parent_snoc).
+    apply (get_none_pt f p1 x t _ N1 Q). apply H.
+Qed.
+Lemma removable_pt f p1 x t p2 : indep p1 p2 -> removable (pt f p1 x t) p2 = removable f p2.
+Proof.
+  intros I. pose proof I as (N1 & N2 & D & A & B). unfold removable. rewrite (has_children_pt f p1 x t p2 I).
+  rewrite fs_get_pt by exact N1. apply not_eq_sym in D. apply peqb_neq in D. rewrite D.
+  destruct (path_eqb p2 (parent p1)); [|reflexivity]. destruct (fs_get f p2); reflexivity.
+Qed.
+
+(* MKDIR and REMOVE as the backend performs them *)
+Inductive nsop := NsMkdir (p : path) (perm : N) | NsRemove (p : path).
+Definition ns_path (o : nsop) : path := match o with NsMkdir p _ | NsRemove p => p end.
+Definition ns_run (f : fsmap) (o : nsop) (t : N) : fsmap * bool :=
+  match o with
+  | NsMkdir p perm => (fst (be_mkdir f p perm t), match snd (be_mkdir f p perm t) with Ok _ => true | Err _ => false end)
+  | NsRemove p => (fst (be_remove f p t), match snd (be_remove f p t) with Ok _ => true | Err _ => false end)
+  end.
+(* closed form: a point update when enabled, nothing otherwise *)
+Definition ns_enabled (f : fsmap) (o : nsop) : bool :=
+  match o with NsMkdir p _ => creatable f p | NsRemove p => removable f p end.
+Definition ns_obj (o : nsop) (t : N) : option obj :=
+  match o with NsMkdir _ perm => Some (mk_dir (N.land perm 511) t) | NsRemove _ => None end.
+Lemma ns_run_spec f o t : WF f -> nolinks f -> nodd (ns_path o) ->
+  ns_run f o t = if ns_enabled f o then (pt f (ns_path o) (ns_obj o t) t, true) else (f, false).
+Proof.
+  intros W NL ND. destruct o as [p perm|p]; cbn [ns_run ns_enabled ns_obj ns_path pt] in *.
+  - destruct (be_mkdir_spec f W NL p perm t ND) as [e S]. rewrite S. destruct (creatable f p); reflexivity.
+  - destruct (be_remove_spec f W NL p t ND) as [e S]. rewrite S. destruct (removable f p); reflexivity.
+Qed.
+Lemma ns_enabled_pt f p1 x t o : indep p1 (ns_path o) -> ns_enabled (pt f p1 x t) o = ns_enabled f o.
+Proof. destruct o; cbn [ns_enabled ns_path]; intros I; [apply creatable_pt|apply removable_pt]; exact I. Qed.
+Lemma ns_run_wf f o t : WF f -> nolinks f -> nodd (ns_path o) -> WF (fst (ns_run f o t)) /\ nolinks (fst (ns_run f o t)).
+Proof.
+  intros W NL ND. rewrite (ns_run_spec f o t W NL ND). destruct (ns_enabled f o) eqn:E; cbn [fst]; [|split; assumption].
+  destruct o as [p perm|p]; cbn [ns_enabled ns_obj ns_path pt] in *.
+  - split; [apply WF_add; assumption|apply nolinks_add; [exact NL|discriminate]].
+  - destruct (removable_spec f W p E) as (NE & _ & NC). split; [apply WF_del; assumption|apply nolinks_del; exact NL].
+Qed.
+
+(* MKDIR / REMOVE of independent names: the same outcomes in both orders, and the same tree up to the mtime of a
+   shared parent directory (exactly the same tree when both happen at the same instant) *)
+Theorem be_ns_commute f o1 t1 o2 t2 : WF f -> nolinks f -> nodd (ns_path o1) -> nodd (ns_path o2) ->
+  indep (ns_path o1) (ns_path o2) ->
+  let r1 := ns_run f o1 t1 in let r12 := ns_run (fst r1) o2 t2 in
+  let r2 := ns_run f o2 t2 in let r21 := ns_run (fst r2) o1 t1 in
+  snd r1 = snd r21 /\ snd r2 = snd r12 /\
+  forall q, option_map (touch_o 0) (fs_get (fst r12) q) = option_map (touch_o 0) (fs_get (fst r21) q) /\
+            (parent (ns_path o1) <> parent (ns_path o2) \/ q <> parent (ns_path o1) \/ t1 = t2 ->
+             fs_get (fst r12) q = fs_get (fst r21) q).
+Proof.
+  intros W NL ND1 ND2 I. cbv zeta.
+  destruct (ns_run_wf f o1 t1 W NL ND1) as [W1 NL1]. destruct (ns_run_wf f o2 t2 W NL ND2) as [W2 NL2].
+  rewrite (ns_run_spec (fst (ns_run f o1 t1)) o2 t2 W1 NL1 ND2), (ns_run_spec (fst (ns_run f o2 t2)) o1 t1 W2 NL2 ND1).
+  rewrite (ns_run_spec f o1 t1 W NL ND1), (ns_run_spec f o2 t2 W NL ND2).
+  destruct (ns_enabled f o1) eqn:E1, (ns_enabled f o2) eqn:E2; cbn [fst snd].
+  - rewrite (ns_enabled_pt f _ _ _ o2 I), (ns_enabled_pt f _ _ _ o1 (indep_sym _ _ I)), E1, E2. cbn [fst snd].
+    split; [reflexivity|]. split; [reflexivity|]. intros q. apply pt_commute. exact I.
+  - rewrite (ns_enabled_pt f _ _ _ o2 I), E1, E2. cbn [fst snd]. repeat split; reflexivity.
+  - rewrite (ns_enabled_pt f _ _ _ o1 (indep_sym _ _ I)), E1, E2. cbn [fst snd]. repeat split; reflexivity.
+  - rewrite E1, E2. cbn [fst snd]. repeat split; reflexivity.
+Qed.
+
+(* ====================================================================================================== *)
+(* 6. what is NOT proved: commutation of two allocating requests at the handler level                    *)
+(* ====================================================================================================== *)
+(* states equal up to handle numbering, list order, caches, call log and directory mtimes: the trees agree up to
+   mtime at every path, and a handle exists for a path in one state iff one exists in the other *)
+Definition fs_equiv (f g : fsmap) : Prop := forall q, option_map (touch_o 0) (fs_get f q) = option_map (touch_o 0) (fs_get g q).
+Definition handles_equiv (s t : srv) : Prop :=
+  forall p, (exists h, get (hm s) h = Some p) <-> (exists h, get (hm t) h = Some p).
+(* the projected reply with the returned handle replaced by the path it names *)
+Definition proj_path (s' : srv) (o : obs) :=
+  (ob_rpc o, ob_status o, match ob_fh o with Some h => get (hm s') h | None => None end,
+   match ob_attrs o with x :: _ => option_map pfa x | [] => None end, ob_bytes o).
+Definition creates_in (r : req) (h : N) (n : name) : Prop :=
+  (exists how sa, r = RCreate h n how sa) \/ (exists sa, r = RMkdir h n sa) \/ r = RLookup h n.
+Definition commute_distinct_statement : Prop :=
+  forall s c1 r1 c2 r2 h1 n1 h2 n2 d1 da1 d2 da2,
+    Good s -> creates_in r1 h1 n1 -> creates_in r2 h2 n2 ->
+    lookup_node s h1 = Some (d1, da1) -> lookup_node s h2 = Some (d2, da2) ->
+    indep (d1 ++ [n1]) (d2 ++ [n2]) ->
+    (N.of_nat (length (handles (hm s))) + 2 <= eff_max (hm s)) ->          (* no eviction *)
+    let s1 := fst (step s c1 r1) in let s2 := fst (step s c2 r2) in
+    let a := step s1 c2 r2 in let b := step s2 c1 r1 in
+    proj_path s1 (snd (step s c1 r1)) = proj_path (fst b) (snd b) /\
+    proj_path s2 (snd (step s c2 r2)) = proj_path (fst a) (snd a) /\
+    fs_equiv (fs (fst a)) (fs (fst b)) /\ handles_equiv (fst a) (fst b).
+
+(* ====================================================================================================== *)
+(* 7. non-vacuity: the hypotheses of the commutation theorems are met by a concrete reachable state       *)
+(* ====================================================================================================== *)
+(* MNT "/" (handle 1); CREATE a (handle 2); CREATE b (handle 3), caches on *)
+Definition cm_hist : list hstep := ex_steps [RMnt [47]; RCreate 1 [97] 0 ex_sattr2; RCreate 1 [98] 0 ex_sattr2].
+Definition cm_state : srv := hfinal ex_init cm_hist.
+Lemma cm_state_good : Good cm_state.
+Proof. apply Good_hfinal; [apply Good_ex_init|apply c02_hist_b_spec; vm_compute; reflexivity]. Qed.
+(* GETATTR of /a against REMOVE of /b through the root handle *)
+Example commute_hyps_met : exists a da,
+  Good cm_state /\ attr_reader (RGetattr 2) = Some 2 /\ is_rm (RRemove 1 [98]) = Some (1, [98]) /\
+  lookup_node cm_state 2 = Some ([[97]], a) /\ vname [98] /\ sanitize_ok [] [98] = true /\
+  lookup_node cm_state 1 = Some ([], da) /\ na_kind da = KDir /\ ro (conf cm_state) = false /\
+  kd (fs cm_state) [] = true /\ is_prefix ([] ++ [[98]]) [[97]] = false.
+Proof.
+  eexists. eexists. split; [exact cm_state_good|]. split; [reflexivity|]. split; [reflexivity|].
+  split; [vm_compute; reflexivity|]. split; [vm_compute; reflexivity|]. split; [vm_compute; reflexivity|].
+  split; [vm_compute; reflexivity|]. split; [vm_compute; reflexivity|]. split; [vm_compute; reflexivity|].
+  split; vm_compute; reflexivity.
+Qed.
+(* ... and the two orders really give the same two replies and the same tree (the theorem, computed on this state) *)
+Example commute_instance :
+  let s1 := fst (step cm_state ex_cred2 (RGetattr 2)) in let s2 := fst (step cm_state ex_cred2 (RRemove 1 [98])) in
+  proj (snd (step cm_state ex_cred2 (RGetattr 2))) = proj (snd (step s2 ex_cred2 (RGetattr 2))) /\
+  ob_status (snd (step cm_state ex_cred2 (RRemove 1 [98]))) = 0 /\
+  fs (fst (step s1 ex_cred2 (RRemove 1 [98]))) = fs (fst (step s2 ex_cred2 (RGetattr 2))) /\
+  fs s2 <> fs cm_state.
+Proof. cbv zeta. split; [vm_compute; reflexivity|]. split; [vm_compute; reflexivity|]. split; [vm_compute; reflexivity|]. vm_compute. discriminate. Qed.
+(* backend commutation: MKDIR /a and REMOVE /b on a tree where /b exists, at different instants *)
+Example be_commute_hyps_met :
+  WF (fs cm_state) /\ nolinks (fs cm_state) /\ nodd (ns_path (NsMkdir [[99]] 493)) /\ nodd (ns_path (NsRemove [[98]])) /\
+  indep (ns_path (NsMkdir [[99]] 493)) (ns_path (NsRemove [[98]])) /\
+  snd (ns_run (fs cm_state) (NsMkdir [[99]] 493) 7) = true /\ snd (ns_run (fs cm_state) (NsRemove [[98]]) 9) = true.
+Proof.
+  split; [exact (g_wf _ cm_state_good)|]. split; [exact (g_nl _ cm_state_good)|].
+  split; [repeat constructor|]. split; [repeat constructor|].
+  split; [repeat split; cbn; discriminate|]. split; vm_compute; reflexivity.
 Qed.
